@@ -97,6 +97,18 @@ class Item:
         return iter(self.w.do_op("unpack", self, None))
 
 
+class AwaitableItem(Item):
+    """an item that is itself awaitable (shape `items awaitable` of the adapters)"""
+    def __await__(self):
+        self.w.log.append(("await", self.name))
+        return self.w.item(self.name + "_awaited", plain=True)
+        yield
+
+    def __resolve__(self):
+        self.w.log.append(("await", self.name))
+        return self.w.item(self.name + "_awaited", plain=True)
+
+
 class Run:
     """one execution (impl or ref) against the scripted environment"""
     def __init__(self, scen, model, sync):
@@ -124,10 +136,13 @@ class Run:
         self.op_pos = 0
 
     # model access -----------------------------------------------------
-    def item(self, name):
+    items_awaitable = False
+
+    def item(self, name, plain=False):
         rep = self.model.get("same", {}).get(name, name)
         if rep not in self.items:
-            self.items[rep] = Item(rep, self)
+            cls = AwaitableItem if (self.items_awaitable and not plain) else Item
+            self.items[rep] = cls(rep, self)
         return self.items[rep]
 
     def oplog(self, e):
@@ -179,7 +194,7 @@ class Run:
                 return ("end", None)
             return ("raise", run.exc(a, ("src", name, k)))
 
-        if self.sync:
+        if self.sync or kind == "sync":
             class SyncIt:
                 def __iter__(s):
                     return s
@@ -491,6 +506,7 @@ def replay_scenario(payload):
     max_steps = nyield + 3
     ri = Run(scen, model, sync=False)
     rr = Run(scen, model, sync=True)
+    ri.items_awaitable = rr.items_awaitable = bool((payload.get("opts") or {}).get("val_protocols", {}).get("__await__"))
     ia = build_args(ri, payload["args"]["iargs"])
     ik = {k: build_arg(ri, v) for k, v in payload["args"].get("ikw", {}).items()}
     ra = build_args(rr, payload["args"]["rargs"])
@@ -518,7 +534,7 @@ def replay_scenario(payload):
             diffs.append(f"event {i}: impl {ilog[i]} vs reference {rlog[i]}")
             break
     else:
-        if len(ilog) != len(rlog) and not (io[0] in ("closed", "cut") or ro[0] in ("cut",)):
+        if len(ilog) != len(rlog) and not (io[0] == "cut" or ro[0] == "cut" or (io[0] == "closed" and len(ilog) < len(rlog))):
             extra = ilog[n:] if len(ilog) > n else rlog[n:]
             diffs.append(f"event {n}: {'impl' if len(ilog) > n else 'reference'} additionally does {extra[0]}")
     if io[0] in ("return", "raise") and ro[0] in ("return", "raise"):
